@@ -221,6 +221,31 @@ def run(ctx):
     ctx.check(len(ps) == 1 and D.show(ps[0].ret) == "Verifier::verify_json(verifier, public_key, signature, canonical_json)", "C02.entity",
               "C02.entity:verify_with", w.where(f6), bad_msg=f"{ps!r}"[:300])
 
+    # ---- which key ids count as "cannot be parsed" (and are skipped) -------------------------------------------------------------------
+    ctx.rule("C02.key-id-language", "verify_canonical_json_for_entity parses the stored key ids with a key-name type whose validate accepts every name: a signature is "
+                                    "skipped only because of its algorithm part, never because of how the key version is spelled (sign_json stores any version; "
+                                    "sign-then-verify must succeed for all of them, and an invalid signature must not be ignored because of its key name)")
+    wk = W.World(ctx.facts("A"), ["ruma_signatures", "ruma_common", "ruma_identifiers_validation"])
+    fe = wk.fn(f"{FN}::verify_canonical_json_for_entity")
+    fam_e = [fe] + [g for g in wk.crates["ruma_signatures"].all_fns() if "body" in g and U.sig_inline(g["path"])]
+    kn = set()
+    for g in fam_e:
+        for _, c in M.calls(g["body"]):
+            if re.search(r"KeyId<A, K> as core::convert::TryFrom<&'a str>>::try_from$|KeyId::<A, K>::parse", M.callee_name(c)):
+                m_ = re.search(r"KeyId<[^,]+, ([^>]+)>", (c.get("fnargs") or [""])[0])
+                if m_ and g is fe or (m_ and any(M.callee_name(c2) == g["path"] for _, c2 in M.calls(fe["body"]))):
+                    kn.add(m_.group(1).strip())
+    ctx.check(bool(kn), "C02.key-id-language", "C02.key-id-language:parse-site", wk.where(fe), bad_msg="no key-id parse found in verify_canonical_json_for_entity")
+    dk = D.Dex(wk.lookup, adt_discr=wk.adt_discr)
+    for k in sorted(kn):
+        v = wk.lookup(f"<{k} as ruma_identifiers_validation::KeyName>::validate")
+        if v is None or "body" not in v:
+            ctx.unrecognised("C02.key-id-language", f"C02.key-id-language:{k.rsplit('::', 1)[-1]}", wk.where(fe), f"KeyName::validate of {k} not found")
+            continue
+        rets = {D.show(p.ret) for p in dk.paths(v, [D.sym("s")]) if p.kind == "ret"}
+        ctx.check(rets == {"Result::Ok(())"}, "C02.key-id-language", f"C02.key-id-language:{k.rsplit('::', 1)[-1]}", wk.where(fe),
+                  bad_msg=f"stored key ids are parsed as KeyId<_, {k.rsplit('::', 1)[-1]}>, whose validate can fail ({sorted(rets)[:3]}): a signature under e.g. "
+                          f"`ed25519:a.b` or a base64 key name is skipped instead of verified")
     # ---- Ed25519Verifier --------------------------------------------------------------------------------
     ctx.rule("C02.ed25519", "Ed25519Verifier::verify_json: VerifyingKey::from_bytes(public_key) then .verify(message, signature) with roles unswapped; "
                             "every failure maps to Err; verifier_from_algorithm yields it for Ed25519 only")
